@@ -4,5 +4,5 @@ package record
 // and block-handler properties are executed twice on the same symbolic inputs under independent symbolic map
 // orders and host-clock readings, in one process; both executions must end in the same stores and balances
 // (verifSelfCompose, harness/rt).
-func VerifC11_Self_C12_Record() { verifSelfCompose(VerifC12_Record) }
+func VerifC11_Self_C12_Record()       { verifSelfCompose(VerifC12_Record) }
 func VerifC11_Self_C19_AcrossBlocks() { verifSelfCompose(VerifC19_AcrossBlocks) }
